@@ -172,6 +172,14 @@ class Gen:
                 for p in params:
                     if p == b"command":
                         v = self.value(scope_vars, extra_refs=[b"in", b"out", b"extra", b"flags"]) + b" $in -o $out"
+                        # $in / $out reached THROUGH another rule variable: the quoting mode is that of the parameter being
+                        # computed (command: quoted), not of the variable passed through (depfile / rspfile: unquoted)
+                        if b"depfile" in params and r.chance(1, 2):
+                            v += b" -MF $depfile"
+                            self.feat.add("command-refers-to-depfile")
+                        if b"rspfile" in params and r.chance(1, 2):
+                            v += b" @${rspfile}"
+                            self.feat.add("command-refers-to-rspfile")
                     elif p == b"deps":
                         v = b"gcc"
                     elif p == b"depfile":
@@ -306,6 +314,10 @@ DIRECTED_VALID = [
     ("f21", [(b"build.ninja", b"rule cc\n  command = cc @$out.rsp\n  description = CC $in $out\n  depfile = $out.d\n"
                               b"  rspfile = $out.rsp\n  rspfile_content = $in\nbuild a$ b.o: cc x$ y.c z.c\n")],
      [b"a b.o"], [b"x y.c", b"z.c"]),
+    # the quoting mode belongs to the parameter being computed and is inherited by nested rule variables
+    ("nested-quoting", [(b"build.ninja", b"rule cc\n  command = cc -MF $depfile @$rspfile -o $out $in\n  description = CC $depfile\n  depfile = $out.d\n"
+                                         b"  rspfile = $out.rsp\n  rspfile_content = $in $rspfile\nbuild obj/my$ file.o: cc a$ b.c\n")],
+     [b"obj/my file.o"], [b"a b.c"]),
     # F22: default targets are path strings
     ("f22", [(b"build.ninja", b"rule cc\n  command = cc $in -o $out\nd = obj\nbuild $d/a$ b.o: cc x.c\ndefault $d/a$ b.o\n")],
      [b"obj/a b.o"], [b"x.c"]),
